@@ -2,7 +2,7 @@
 import harness
 from facts import (norm, call_name, short, subnodes, lit_value, matches_on, arm_variants, field_reads, peel_ty, str_lits_in, pat_lits,
                    AnchorMissing)
-from prov import Prov, has_field, has_call
+from prov import Prov, has_field, has_call, canon_params
 from templates import variant_table, enclosing_contexts, field_coverage, reads_in, inlined, LOSSY_OR_REORDERING
 
 CLI = "nitrogql_cli::"
@@ -339,6 +339,30 @@ def r15b(P, R):
         R.check("R15-b", "no-depth-limit:" + f.name, not bad, "no failure depends on a nesting counter",
                 "%s fails when a counter parameter (%s) crosses a bound (line %s): a type reference nested deeper than that is rejected on the "
                 "JSON route (or its field's arguments are silently dropped) while the SDL route accepts it" % (f.path, sorted(counters), bad), loc=f.loc())
+    # the wrappers met along the ofType chain are a sequence, one entry per level: a list that the chain loop fills must reach the
+    # reconstruction entry for entry (reversal and consumption are fine; de-duplication, sorting, truncation, filtering are not)
+    seq_lossy = {"dedup", "dedup_by", "dedup_by_key", "sort", "sort_by", "sort_by_key", "sort_unstable", "sort_unstable_by", "sort_unstable_by_key", "retain", "retain_mut",
+                 "truncate", "remove", "swap_remove", "drain", "clear", "split_off", "unique", "unique_by", "filter", "filter_map", "skip", "take", "step_by",
+                 "skip_while", "take_while", "map_while"}
+    for f in [P.fns[p] for p in sorted(rec_set)]:
+        filled = {}
+        for loop in [x for x in f.walk() if x.get("k") == "Loop"]:
+            for y in subnodes(loop):
+                if y.get("k") == "MethodCall" and y["method"] in ("push", "push_back", "push_front", "insert") and y["recv"].get("k") == "Path" and "local" in y["recv"]:
+                    filled[y["recv"]["local"]] = y["recv"].get("name")
+        for lid, nm in sorted(filled.items()):
+            bad = []
+            for y in f.walk():
+                if y.get("k") == "MethodCall" and y["method"] in seq_lossy:
+                    base = y["recv"]
+                    while base.get("k") == "MethodCall" or (base.get("k") in ("AddrOf", "Unary") and "e" in base):
+                        base = base["recv"] if base.get("k") == "MethodCall" else base["e"]
+                    if base.get("k") == "Path" and base.get("local") == lid:
+                        bad.append(y["method"])
+            key = "level-sequence:%s:%s" % (f.name, nm)
+            R.check("R15-b", key, not bad, "the per-level list `%s` reaches the reconstruction entry for entry" % nm,
+                    "%s records one entry per level of the ofType chain in `%s` and then applies %s to it: levels are lost or reordered (e.g. `[[T]]` is read "
+                    "as `[T]`), so the JSON route sees another type than the SDL route" % (f.path, nm, bad), loc=f.loc())
     # a wrapper marker describes ONE level of the ofType chain.  When the chain is walked by a loop, a boolean that is set on one
     # iteration and recorded per iteration (pushed / stored for the level at hand) must be cleared inside the loop; a marker that can
     # only ever go one way leaks from an outer wrapper (`[T]!`) to every level below it (`[T!]!`).
@@ -494,6 +518,59 @@ def r15c(P, R):
         elif cond:
             R.undecided("R15-c", "lossy:" + short(f.path), "%s selects members with %s while converting; whether a member of the schema can be dropped is not decided" % (f.path, cond), loc=f.loc())
     R.holds("R15-c", "lossy:none", "converters apply no filtering/reordering adaptor")
+    # positional pairing: `a.zip(b)` pairs the i-th with the i-th; once an adaptor that can drop elements (flatten over Options,
+    # filter, ..) sits on one side, the i-th survivor is paired with the i-th entry of the other table
+    dropping = {"flatten", "filter", "filter_map", "flat_map", "skip_while", "take_while", "skip", "take", "step_by", "dedup", "map_while"}
+    conv = [P.fns[p] for p in t2a + [q for q in a2t if q.startswith(SEM + "ast_to_type_system")]] + \
+           [f for f in P.fns.values() if f.path.startswith(INC) and not f.derived and "::tests" not in f.path and not f.from_expansion]
+    for f in conv:
+        for z in f.walk():
+            if z.get("k") == "MethodCall" and z["method"] in ("zip", "zip_eq") and z["args"]:
+                sides = {"receiver": z["recv"], "argument": z["args"][0]}
+                bad = {w: sorted({y["method"] for y in subnodes(e) if y.get("k") == "MethodCall" and y["method"] in dropping}) for w, e in sides.items()}
+                bad = {w: v for w, v in bad.items() if v}
+                if bad and bad.get("receiver") != bad.get("argument"):
+                    R.violated("R15-c", "zip-after-drop:" + short(f.path), "%s pairs two sequences by position (`zip`) after %s: when an element is absent the later ones "
+                               "shift and are paired with the wrong entry (e.g. the subscription root recorded as the mutation root)"
+                               % (f.path, "; ".join("%s on the %s" % (v, w) for w, v in sorted(bad.items()))), loc=f.loc())
+    # a list of the introspection result is filtered by `kind` only in agreement with what the specification puts in that list
+    spec_kinds = {"interfaces": {"INTERFACE"}, "possible_types": {"OBJECT"}}
+    for f in [g for g in conv if g.path.startswith(INC)]:
+        pvf = None
+        for z in f.walk():
+            if not (z.get("k") == "MethodCall" and z["method"] in ("filter", "skip_while", "take_while", "retain") and z["args"] and z["args"][0].get("k") == "Closure"):
+                continue
+            pvf = pvf or Prov(f)
+            kept = None
+            for y in subnodes(z["args"][0]["body"]):
+                ks = cond_kinds(pvf, y) if y.get("k") in ("Binary", "MethodCall", "Match") else None
+                if ks:
+                    kept = (kept or set()) | ks
+            if not kept:
+                continue
+            a = pvf.atoms(z["recv"])
+            fields = {x[2] for x in a if x[0] == "field" and x[1].endswith("::IntrospectionType")}
+            params = {x[1] for x in a if x[0] == "param"}
+            if params:   # the list is a parameter of a shared helper: what the callers pass
+                names = [pp.get("name") if pp.get("k") == "Binding" else None for pp in f.params]
+                for cp in P.callers_of(f.path):
+                    g = P.fns[cp]
+                    if "::tests" in cp:
+                        continue
+                    gpv = Prov(g)
+                    for c in g.walk():
+                        if c.get("k") in ("Call", "MethodCall") and call_name(c) == f.path:
+                            args = ([c["recv"]] if c.get("k") == "MethodCall" else []) + c["args"]
+                            for nm_, a_ in zip(canon_params(f), args):
+                                if nm_ in params:
+                                    fields |= {x[2] for x in gpv.atoms(a_) if x[0] == "field" and x[1].endswith("::IntrospectionType")}
+            for fld in sorted(fields & set(spec_kinds)):
+                key = "kind-filter:%s:%s" % (short(f.path), fld)
+                if spec_kinds[fld] <= kept:
+                    R.holds("R15-c", key, "`%s` is filtered to kinds %s, which the specification puts there" % (fld, sorted(kept)), loc=f.loc())
+                else:
+                    R.violated("R15-c", key, "%s keeps only the elements of kind %s of a list that also receives `%s`, whose elements are of kind %s: every one "
+                               "of them is dropped (e.g. a union ends up without members) on the JSON route" % (f.path, sorted(kept), fld, sorted(spec_kinds[fld])), loc=f.loc())
     # every element is converted: a loop of a converter may skip an element (`continue`/`break` under a condition, a `filter`
     # predicate) only by the one test the specification licenses — the reserved name prefix `__` of the introspection system.
     # Any other content-based skip drops user definitions on one route.
